@@ -174,7 +174,7 @@ def insert_implicit_newlines(res, maybe_newline=maybe_newline):
             else:
                 if is_implicit_newline("".join([s1, s2])):
                     res[i] = "\n"
-    del res[-2:]
+    del res[len(res) - 2 :]
 
 
 class Expander:
